@@ -1,1 +1,598 @@
-/- C14 — property theorems (stub: not built yet) -/
+import Rivaas.Lemmas.ConfigMerge
+/-
+C14 — Configuration merging is last-source-wins and reload is atomic.
+
+Property theorems about the model of `config/config.go` (`Model/Config.lean`) against the
+declarative oracle (`Spec/Config.lean`). The model follows the code after the `fix:` commit for
+K14 (the bound struct is zeroed before decoding); the behaviour as shipped is `loadAsIs` with a
+`decide` witness.
+-/
+namespace Rivaas.C14
+open Rivaas.Config
+
+/-! ## 1. each key has the value given by the last source that defines it -/
+
+/-- For **every** list of sources and **every** key path: the merged map holds at the path what the
+    last source that defines the path gives — a non-map value as it is (falsy or not: leaves are
+    opaque), "a map" where that source has a map, nothing where that source replaced an enclosing
+    subtree by a non-map value — with keys compared case-insensitively at every level. -/
+theorem get_last_wins (srcs : List Kvs) (p : List Bytes) (hp : p ≠ []) :
+    classify (getPath (mergeAll srcs) p) = lastWins srcs p :=
+  classify_getPath_mergeAll srcs p hp
+
+/-- not vacuous, falsy values included: `port` is 8080 in the first source and `0` in the second
+    (under `SERVER.PORT`), `name` is overridden by the empty string; the last source wins -/
+example :
+    lastWins [[("server".toList, .map [("port".toList, .leaf "int:8080".toList)]), ("name".toList, .leaf "s:one".toList)],
+              [("SERVER".toList, .map [("PORT".toList, .leaf "int:0".toList)]), ("Name".toList, .leaf "s:".toList)]]
+      ["server".toList, "port".toList] = .leaf "int:0".toList := by decide
+
+/-- a scalar leaf of a later source wins at any depth, whatever the earlier sources hold there
+    (the one-step form of the statement) -/
+theorem later_leaf_wins (d s : Kvs) (p : List Bytes) (hp : p ≠ []) (r : Bytes)
+    (h : probe (normalize s) p = .leaf r) :
+    classify (getPath (mergeKvs d (normalize s)) p) = .leaf r := by
+  have hw := wf_normalize s
+  rw [classify_getPath_merge p hp d _ hw.1 hw.2, h]
+
+/-- a source that does not reach a path leaves the value there alone -/
+theorem untouched_path_kept (d s : Kvs) (p : List Bytes) (hp : p ≠ [])
+    (h : probe (normalize s) p = .absent) :
+    classify (getPath (mergeKvs d (normalize s)) p) = classify (getPath d p) := by
+  have hw := wf_normalize s
+  rw [classify_getPath_merge p hp d _ hw.1 hw.2, h]
+
+theorem lemma_splitDots_ne_nil (s : Bytes) : splitDots s ≠ [] := by
+  induction s with
+  | nil => simp [splitDots]
+  | cons c cs ih =>
+    simp only [splitDots]
+    cases h : splitDots cs with
+    | nil => exact absurd h ih
+    | cons seg rest => by_cases hc : c = '.' <;> simp [hc]
+
+theorem lemma_classify_none {v : Option CVal} : classify v = .none ↔ v = none := by
+  cases v with
+  | none => simp [classify]
+  | some x => cases x <;> simp [classify]
+
+/-- `Get(key)` — the direct top-level match first, then the dotted path, nil as absent — is the
+    last-wins value for every key string -/
+theorem get_spec (srcs : List Kvs) (key : Bytes) :
+    classify (get (mergeAll srcs) key) = specGet srcs key := by
+  unfold Config.get specGet
+  by_cases hk : key = []
+  · simp [hk, classify]
+  · simp only [hk, if_false]
+    have h1 : classify (lookup (lower key) (mergeAll srcs)) = lastWins srcs [lower key] :=
+      get_last_wins srcs [lower key] (by simp)
+    have h2 := get_last_wins srcs (splitDots (lower key)) (lemma_splitDots_ne_nil _)
+    unfold getValue
+    cases hl : lookup (lower key) (mergeAll srcs) with
+    | none =>
+      rw [hl] at h1
+      simp only [classify] at h1
+      rw [← h1]
+      simp only []
+      rw [← h2]
+      cases hg : getPath (mergeAll srcs) (splitDots (lower key)) with
+      | none => simp [classify]
+      | some v =>
+        cases v with
+        | leaf r =>
+          by_cases hr : r = nilLeaf
+          · simp [hr, classify]
+          · simp [hr, classify]
+        | map m => simp [classify]
+    | some v =>
+      rw [hl] at h1
+      rw [← h1]
+      cases v with
+      | leaf r =>
+        by_cases hr : r = nilLeaf
+        · simp [hr, classify]
+        · simp [hr, classify]
+      | map m => simp [classify]
+
+/-! ## 2. case-insensitively -/
+
+theorem lemma_tableLookup_mem {c l : Char} {t : List (Char × Char)} (h : tableLookup c t = some l) :
+    (c, l) ∈ t := by
+  induction t with
+  | nil => simp [tableLookup] at h
+  | cons ul rest ih =>
+    obtain ⟨u, l'⟩ := ul
+    simp only [tableLookup] at h
+    by_cases hu : u = c
+    · simp only [hu, if_true, Option.some.injEq] at h
+      simp [hu, h]
+    · simp only [hu, if_false] at h
+      exact List.mem_cons_of_mem _ (ih h)
+
+theorem lemma_lowerChar_idem (c : Char) : lowerChar (lowerChar c) = lowerChar c := by
+  unfold lowerChar
+  cases h : tableLookup c upperTable with
+  | none => simp [h]
+  | some l =>
+    have hm := lemma_tableLookup_mem h
+    have : ∀ ul ∈ upperTable, tableLookup ul.2 upperTable = none := by decide
+    simp [this (c, l) hm]
+
+theorem lemma_lower_idem (s : Bytes) : lower (lower s) = lower s := by
+  simp [lower, lemma_lowerChar_idem]
+
+/-- a key is looked up the same way however it is capitalised -/
+theorem case_insensitive (vals : Kvs) (k₁ k₂ : Bytes) (h : lower k₁ = lower k₂) :
+    get vals k₁ = get vals k₂ := by
+  have hnil : (k₁ = []) ↔ (k₂ = []) := by
+    constructor
+    · intro h1; rw [h1] at h
+      cases k₂ with
+      | nil => rfl
+      | cons c cs => simp [lower] at h
+    · intro h2; rw [h2] at h
+      cases k₁ with
+      | nil => rfl
+      | cons c cs => simp [lower] at h
+  unfold Config.get getValue
+  by_cases h1 : k₁ = []
+  · simp [h1, hnil.mp h1]
+  · have h2 : ¬ k₂ = [] := fun e => h1 (hnil.mpr e)
+    simp only [h1, h2, if_false, h]
+
+/-- not vacuous -/
+example : lower "Server.PORT".toList = lower "server.port".toList := by decide
+
+/-- what `normalizeMapKeys` does to a map whose keys do not collide when lower-cased: the entry of
+    key `K` is found under `lower K`, with its value normalised — nothing else changes -/
+theorem normalize_lookup (s : Kvs) (hnc : (s.map fun kv => lower kv.1).Nodup) (k : Bytes) (v : CVal)
+    (hm : (k, v) ∈ s) : lookup (lower k) (normalize s) = some (normalizeVal v) := by
+  induction s with
+  | nil => simp at hm
+  | cons kv rest ih =>
+    obtain ⟨k', v'⟩ := kv
+    simp only [List.map_cons, List.nodup_cons] at hnc
+    simp only [normalize]
+    have hput_self : ∀ (l : Kvs) (a : Bytes) (x : CVal), lookup a (put l a x) = some x := by
+      intro l a x
+      induction l with
+      | nil => simp [put, lookup]
+      | cons e r ihr =>
+        obtain ⟨ek, ev⟩ := e
+        by_cases he : ek = a
+        · simp [put, lookup, he]
+        · simp [put, lookup, he, ihr]
+    have hput_other : ∀ (l : Kvs) (a b : Bytes) (x : CVal), b ≠ a → lookup b (put l a x) = lookup b l := by
+      intro l a b x hne
+      induction l with
+      | nil => simp [put, lookup]; intro e; exact absurd e.symm hne
+      | cons e r ihr =>
+        obtain ⟨ek, ev⟩ := e
+        by_cases he : ek = a
+        · subst he
+          have : ¬ ek = b := fun e => hne e.symm
+          simp [put, lookup, this]
+        · by_cases he2 : ek = b
+          · subst he2; simp [put, lookup, he]
+          · simp [put, lookup, he, he2, ihr]
+    rcases List.mem_cons.mp hm with heq | hrest
+    · simp only [Prod.mk.injEq] at heq
+      rw [heq.1, heq.2]; exact hput_self _ _ _
+    · have hne : lower k ≠ lower k' := by
+        intro e
+        apply hnc.1
+        rw [← e]
+        exact List.mem_map.mpr ⟨(k, v), hrest, rfl⟩
+      rw [hput_other _ _ _ _ hne]
+      exact ih hnc.2 hrest
+
+/-! ## 3. a Load that fails at any stage leaves values and bound struct untouched -/
+
+/-- failure at any stage — a source, the JSON schema, a custom validator (error or recovered
+    panic), binding decode or `Validate()` — returns the state it started from -/
+theorem load_failure_atomic (schema : Bool) (nv : Nat) (st : State) (inp : LoadInput)
+    (h : (load schema nv st inp).2 ≠ .ok) : (load schema nv st inp).1 = st := by
+  unfold load at h ⊢
+  cases hs : loadSources inp.srcs 0 [] with
+  | error i => simp
+  | ok maps =>
+    simp only [hs] at h ⊢
+    by_cases h1 : (schema && schemaRejects (mergeAll maps)) = true
+    · simp [h1]
+    · simp only [h1] at h ⊢
+      cases h2 : firstRejecting (mergeAll maps) nv with
+      | some i => simp
+      | none =>
+        simp only [h2] at h ⊢
+        cases hb : inp.bind with
+        | none => simp [hb] at h
+        | some b =>
+          cases b with
+          | reject => simp
+          | ok fresh => simp [hb] at h
+
+/-- evaluate the model on a concrete input (`merge` is defined by well-founded recursion, which the
+    kernel does not unfold for `decide`; its equation lemmas do the work) -/
+macro "eval_model" : tactic =>
+  `(tactic| (simp [load, loadAsIs, loadSources, mergeAll, mergeKvs, merge, upsert, normalize, normalizeVal, put,
+      schemaRejects, validatorRejects, firstRejecting, truthy, lookup, overlay, List.range, List.range.loop,
+      List.find?, List.lookup] <;> try decide))
+
+/-- every failure stage is reachable (the hypothesis of `load_failure_atomic` is not vacuous) -/
+example : (load true 2 ⟨[], []⟩ ⟨[.fail], none, []⟩).2 = .source 0 := by decide
+example : (load true 2 ⟨[], []⟩ ⟨[.ok [("schemafail".toList, .leaf "b:true".toList)]], none, []⟩).2 = .schema := by
+  eval_model
+example : (load true 2 ⟨[], []⟩ ⟨[.ok [("vpanic1".toList, .leaf "b:true".toList)]], none, []⟩).2 = .validator 1 := by
+  eval_model
+example : (load true 2 ⟨[], []⟩ ⟨[.ok []], some .reject, []⟩).2 = .binding := by eval_model
+
+/-- where a Load stops does not depend on what had been loaded before -/
+theorem stage_history_independent (schema : Bool) (nv : Nat) (s₁ s₂ : State) (inp : LoadInput) :
+    (load schema nv s₁ inp).2 = (load schema nv s₂ inp).2 := by
+  unfold load
+  cases loadSources inp.srcs 0 [] with
+  | error i => rfl
+  | ok maps =>
+    simp only []
+    by_cases h1 : (schema && schemaRejects (mergeAll maps)) = true
+    · simp [h1]
+    · simp only [h1]
+      cases firstRejecting (mergeAll maps) nv with
+      | some i => rfl
+      | none =>
+        simp only []
+        cases inp.bind with
+        | none => rfl
+        | some b => cases b <;> rfl
+
+/-- after a successful Load the values are the merge of this Load's sources, whatever was there -/
+theorem load_success_values (schema : Bool) (nv : Nat) (st : State) (inp : LoadInput)
+    (h : (load schema nv st inp).2 = .ok) :
+    ∃ maps, loadSources inp.srcs 0 [] = .ok maps ∧ (load schema nv st inp).1.values = mergeAll maps := by
+  unfold load at h ⊢
+  cases hs : loadSources inp.srcs 0 [] with
+  | error i => simp [hs] at h
+  | ok maps =>
+    refine ⟨maps, rfl, ?_⟩
+    simp only [hs] at h ⊢
+    by_cases h1 : (schema && schemaRejects (mergeAll maps)) = true
+    · simp [h1] at h
+    · simp only [h1] at h ⊢
+      cases h2 : firstRejecting (mergeAll maps) nv with
+      | some i => simp [h2] at h
+      | none =>
+        simp only [h2] at h ⊢
+        cases hb : inp.bind with
+        | none => simp
+        | some b =>
+          cases b with
+          | reject => simp [hb] at h
+          | ok fresh => simp
+
+/-- **history independence**: after a successful Load, values and — when a struct is bound — the
+    bound struct are the same from any two starting states: what a fresh `Config` produces -/
+theorem history_independent (schema : Bool) (nv : Nat) (s₁ s₂ : State) (inp : LoadInput)
+    (h : (load schema nv s₁ inp).2 = .ok) :
+    (load schema nv s₁ inp).1.values = (load schema nv s₂ inp).1.values ∧
+    (inp.bind ≠ none → (load schema nv s₁ inp).1.bound = (load schema nv s₂ inp).1.bound) := by
+  have h' : (load schema nv s₂ inp).2 = .ok := by rw [← stage_history_independent schema nv s₁ s₂ inp]; exact h
+  obtain ⟨m1, hm1, hv1⟩ := load_success_values schema nv s₁ inp h
+  obtain ⟨m2, hm2, hv2⟩ := load_success_values schema nv s₂ inp h'
+  rw [hm1] at hm2
+  have hmm : m1 = m2 := by injection hm2
+  refine ⟨by rw [hv1, hv2, hmm], ?_⟩
+  intro hb
+  unfold load at h h' ⊢
+  simp only [hm1] at h h' ⊢
+  by_cases h1 : (schema && schemaRejects (mergeAll m1)) = true
+  · simp [h1] at h
+  · simp only [h1] at h h' ⊢
+    cases h2 : firstRejecting (mergeAll m1) nv with
+    | some i => simp [h2] at h
+    | none =>
+      simp only [h2] at h h' ⊢
+      cases hbind : inp.bind with
+      | none => exact absurd hbind hb
+      | some b =>
+        cases b with
+        | reject => simp [hbind] at h
+        | ok fresh => simp
+
+/-- the bound struct after a successful Load is the one a fresh `Config` decodes -/
+theorem bound_is_fresh (schema : Bool) (nv : Nat) (st : State) (inp : LoadInput) (fresh : List (Bytes × Bytes))
+    (hb : inp.bind = some (.ok fresh)) (h : (load schema nv st inp).2 = .ok) :
+    (load schema nv st inp).1.bound = fresh := by
+  unfold load at h ⊢
+  cases hs : loadSources inp.srcs 0 [] with
+  | error i => simp [hs] at h
+  | ok maps =>
+    simp only [hs] at h ⊢
+    by_cases h1 : (schema && schemaRejects (mergeAll maps)) = true
+    · simp [h1] at h
+    · simp only [h1] at h ⊢
+      cases h2 : firstRejecting (mergeAll maps) nv with
+      | some i => simp [h2] at h
+      | none => simp [hb]
+
+/-- the state at the end of a history of Loads -/
+def finalState (schema : Bool) (nv : Nat) (st : State) : List LoadInput → State
+  | [] => st
+  | inp :: rest => finalState schema nv (load schema nv st inp).1 rest
+
+/-- **a whole history**: with arbitrary Loads before and only failing Loads after it, the last
+    successful Load alone determines values and bound struct -/
+theorem last_success_wins (schema : Bool) (nv : Nat) (s₁ s₂ : State)
+    (before₁ before₂ after : List LoadInput) (inp : LoadInput)
+    (hok : (load schema nv s₁ inp).2 = .ok) (hb : inp.bind ≠ none)
+    (hafter : ∀ st, ∀ x ∈ after, (load schema nv st x).2 ≠ .ok) :
+    finalState schema nv s₁ (before₁ ++ inp :: after) = finalState schema nv s₂ (before₂ ++ inp :: after) := by
+  have hfail : ∀ (tl : List LoadInput) (st : State), (∀ s, ∀ x ∈ tl, (load schema nv s x).2 ≠ .ok) →
+      finalState schema nv st tl = st := by
+    intro tl
+    induction tl with
+    | nil => intro st _; rfl
+    | cons x xs ih =>
+      intro st hx
+      simp only [finalState]
+      rw [load_failure_atomic schema nv st x (hx st x (List.mem_cons_self ..))]
+      exact ih st (fun s y hy => hx s y (List.mem_cons_of_mem _ hy))
+  have hpre : ∀ (pre : List LoadInput) (st : State),
+      finalState schema nv st (pre ++ inp :: after) =
+        (load schema nv (finalState schema nv st pre) inp).1 := by
+    intro pre
+    induction pre with
+    | nil =>
+      intro st
+      simp only [List.nil_append, finalState]
+      exact hfail after _ hafter
+    | cons x xs ih => intro st; simp only [List.cons_append, finalState]; exact ih _
+  rw [hpre before₁ s₁, hpre before₂ s₂]
+  have hok₁ : (load schema nv (finalState schema nv s₁ before₁) inp).2 = .ok := by
+    rw [stage_history_independent schema nv _ s₁ inp]; exact hok
+  obtain ⟨hv, hbd⟩ := history_independent schema nv (finalState schema nv s₁ before₁)
+    (finalState schema nv s₂ before₂) inp hok₁
+  have hbd := hbd hb
+  cases h1 : load schema nv (finalState schema nv s₁ before₁) inp with
+  | mk st1 sg1 =>
+    cases h2 : load schema nv (finalState schema nv s₂ before₂) inp with
+    | mk st2 sg2 =>
+      rw [h1, h2] at hv hbd
+      simp only [] at hv hbd ⊢
+      cases st1; cases st2
+      simp_all
+
+/-- K14, as shipped: the decoder wrote into the existing struct, so `name`, set by the first Load
+    and absent from the second, survived — while a fresh `Config` over the second Load's sources
+    has the zero value there; the repaired `load` agrees with the fresh one -/
+theorem asis_history_witness :
+    let l1 : LoadInput := ⟨[.ok [("name".toList, .leaf "s:one".toList)]], some (.ok [("name".toList, "one".toList)]),
+                           [⟨"name".toList, true, []⟩]⟩
+    let l2 : LoadInput := ⟨[.ok []], some (.ok [("name".toList, [])]), [⟨"name".toList, false, []⟩]⟩
+    let z : State := ⟨[], [("name".toList, [])]⟩
+    (loadAsIs false 0 (loadAsIs false 0 z l1).1 l2).1.bound = [("name".toList, "one".toList)] ∧
+    (loadAsIs false 0 z l2).1.bound = [("name".toList, [])] ∧
+    (load false 0 (load false 0 z l1).1 l2).1.bound = [("name".toList, [])] := by
+  refine ⟨?_, ?_, ?_⟩ <;> eval_model
+
+/-! ## 4. concurrent readers see the old or the new configuration, never a mixture -/
+
+/-- For **every schedule** of commits (the locked regions of Loads, in lock order) and reads (the
+    read-locked pointer loads of `Get`/`Values`): whatever a reader sees is, as a whole, either the
+    map that was installed at the start or the merge of the sources of one Load that had committed
+    successfully before the read. A map is never modified after it has been installed, so there is
+    nothing else a reader could see. -/
+theorem readers_see_installed (schema : Bool) (nv : Nat) (inputs : List LoadInput) (st : State)
+    (sched : List Op) (seen0 : List (Nat × Kvs)) (rm : Nat × Kvs)
+    (h : rm ∈ runSched schema nv inputs st sched seen0) :
+    rm ∈ seen0 ∨ rm.2 = st.values ∨
+      ∃ i inp maps, Op.commit i ∈ sched ∧ inputs[i]? = some inp ∧
+        loadSources inp.srcs 0 [] = .ok maps ∧ rm.2 = mergeAll maps := by
+  induction sched generalizing st seen0 with
+  | nil =>
+    simp only [runSched, List.mem_reverse] at h
+    exact Or.inl h
+  | cons op rest ih =>
+    cases op with
+    | commit i =>
+      simp only [runSched] at h
+      cases hi : inputs[i]? with
+      | none =>
+        simp only [hi] at h
+        rcases ih st seen0 h with h1 | h1 | ⟨j, inp, maps, hj, h2, h3, h4⟩
+        · exact Or.inl h1
+        · exact Or.inr (Or.inl h1)
+        · exact Or.inr (Or.inr ⟨j, inp, maps, List.mem_cons_of_mem _ hj, h2, h3, h4⟩)
+      | some inp =>
+        simp only [hi] at h
+        rcases ih _ seen0 h with h1 | h1 | ⟨j, inp', maps, hj, h2, h3, h4⟩
+        · exact Or.inl h1
+        · by_cases hok : (load schema nv st inp).2 = .ok
+          · obtain ⟨maps, hm, hv⟩ := load_success_values schema nv st inp hok
+            exact Or.inr (Or.inr ⟨i, inp, maps, List.mem_cons_self .., hi, hm, by rw [h1, hv]⟩)
+          · rw [load_failure_atomic schema nv st inp hok] at h1
+            exact Or.inr (Or.inl h1)
+        · exact Or.inr (Or.inr ⟨j, inp', maps, List.mem_cons_of_mem _ hj, h2, h3, h4⟩)
+    | read r =>
+      simp only [runSched] at h
+      rcases ih st _ h with h1 | h1 | ⟨j, inp, maps, hj, h2, h3, h4⟩
+      · rcases List.mem_cons.mp h1 with h0 | h0
+        · exact Or.inr (Or.inl (by rw [h0]))
+        · exact Or.inl h0
+      · exact Or.inr (Or.inl h1)
+      · exact Or.inr (Or.inr ⟨j, inp, maps, List.mem_cons_of_mem _ hj, h2, h3, h4⟩)
+
+/-- **old or new**: readers interleaved in any way with one Load (committed any number of times)
+    see the configuration before it or the configuration after it -/
+theorem readers_old_or_new (schema : Bool) (nv : Nat) (inp : LoadInput) (st : State) (sched : List Op)
+    (rm : Nat × Kvs) (h : rm ∈ runSched schema nv [inp] st sched []) :
+    rm.2 = st.values ∨ rm.2 = (load schema nv st inp).1.values := by
+  have hall : ∀ (sched : List Op) (cur : State) (seen : List (Nat × Kvs)),
+      (cur.values = st.values ∨ cur.values = (load schema nv st inp).1.values) →
+      (∀ x ∈ seen, x.2 = st.values ∨ x.2 = (load schema nv st inp).1.values) →
+      ∀ x ∈ runSched schema nv [inp] cur sched seen,
+        x.2 = st.values ∨ x.2 = (load schema nv st inp).1.values := by
+    intro sched
+    induction sched with
+    | nil => intro cur seen _ hs x hx; simp only [runSched, List.mem_reverse] at hx; exact hs x hx
+    | cons op rest ih =>
+      intro cur seen hc hs x hx
+      cases op with
+      | commit j =>
+        simp only [runSched] at hx
+        cases hj : ([inp] : List LoadInput)[j]? with
+        | none => simp only [hj] at hx; exact ih cur seen hc hs x hx
+        | some y =>
+          have hy : y = inp := by
+            cases j with
+            | zero => simpa using hj.symm
+            | succ k => simp at hj
+          simp only [hj, hy] at hx
+          refine ih _ seen ?_ hs x hx
+          by_cases hok : (load schema nv cur inp).2 = .ok
+          · exact Or.inr (history_independent schema nv cur st inp hok).1
+          · rw [load_failure_atomic schema nv cur inp hok]; exact hc
+      | read r =>
+        simp only [runSched] at hx
+        refine ih cur _ hc ?_ x hx
+        intro y hy
+        rcases List.mem_cons.mp hy with h0 | h0
+        · rw [h0]; exact hc
+        · exact hs y h0
+  exact hall sched st [] (Or.inl rfl) (by simp) rm h
+
+/-- not vacuous: a reader before and a reader after a successful commit see different maps -/
+example :
+    (runSched false 0 [⟨[.ok [("a".toList, .leaf "s:new".toList)]], none, []⟩]
+      ⟨[("a".toList, .leaf "s:old".toList)], []⟩ [.read 0, .commit 0, .read 1] []).map (fun rm => (rm.1, rm.2.length)) =
+      [(0, 1), (1, 1)] := by
+  simp [runSched, load, loadSources, mergeAll, mergeKvs, upsert, normalize, normalizeVal, put, firstRejecting,
+    schemaRejects, List.range, List.range.loop]
+
+/-! ## 5. the model passes the very oracle the driver evaluates on the implementation -/
+
+/-- what the driver would observe of the model's Load -/
+def obsOf (keys : List Bytes) (r : State × Stage) : LoadObs :=
+  { failed := r.2 != .ok, values := r.1.values, bound := r.1.bound,
+    gets := keys.map fun k => (k, classify (Config.get r.1.values k)) }
+
+theorem lemma_truthy (v : Option CVal) : truthy v = (classify v == .leaf "b:true".toList) := by
+  cases v with
+  | none => simp [truthy, classify]
+  | some x =>
+    cases x with
+    | leaf r =>
+      simp only [truthy, classify]
+      by_cases h : r = "b:true".toList
+      · simp [h]
+      · have : (r == "b:true".toList) = false := by simpa using h
+        rw [this]
+        symm
+        simp only [beq_eq_false_iff_ne, ne_eq, Res.leaf.injEq]
+        exact h
+    | map m => simp [truthy, classify]
+
+theorem lemma_keyTrue (maps : List Kvs) (k : Bytes) :
+    truthy (lookup k (mergeAll maps)) = keyTrue maps k := by
+  rw [lemma_truthy, keyTrue]
+  have := get_last_wins maps [k] (by simp)
+  simp only [getPath] at this
+  rw [this]
+
+theorem lemma_allPaths_ne_nil : ∀ (m : Kvs) (p : List Bytes), p ∈ allPaths m → p ≠ []
+  | [], p, h => by simp [allPaths] at h
+  | (k, v) :: rest, p, h => by
+    simp only [allPaths, List.mem_append, List.mem_cons, List.mem_map] at h
+    rcases h with (rfl | ⟨_, _, rfl⟩) | h
+    · simp
+    · simp
+    · exact lemma_allPaths_ne_nil rest p h
+
+theorem lemma_valuesOK (maps : List Kvs) : valuesOK maps (mergeAll maps) = true := by
+  unfold valuesOK
+  simp only [List.all_eq_true, beq_iff_eq]
+  intro p hp
+  apply get_last_wins
+  rcases List.mem_append.mp hp with h | h
+  · obtain ⟨s, _, hs⟩ := List.mem_flatMap.mp h
+    exact lemma_allPaths_ne_nil _ p hs
+  · exact lemma_allPaths_ne_nil _ p h
+
+/-- **model ⊨ oracle**: from every well-formed state, for every Load input and every set of probe
+    keys, what the model does passes `loadOK` — failure ⇒ everything as before; success ⇒ the
+    last-wins values at every path, the fresh struct, the last-wins `Get` for every probe -/
+theorem loadOK_model (schema : Bool) (nv : Nat) (st : State) (hd : DistinctKeys st.values)
+    (hw : WFs st.values) (inp : LoadInput) (keys : List Bytes) :
+    loadOK schema nv st.values st.bound inp (obsOf keys (load schema nv st inp)) = true := by
+  have hsrc := loadSources_spec inp.srcs 0 []
+  have e1 : srcFails ⟨inp.srcs, none, []⟩ = srcFails inp := rfl
+  have e2 : okMaps ⟨inp.srcs, none, []⟩ = okMaps inp := rfl
+  rw [e1, e2] at hsrc
+  unfold loadOK mustFail
+  cases hsf : srcFails inp with
+  | true =>
+    obtain ⟨j, hj⟩ := hsrc.2 hsf
+    simp only [Bool.true_or, if_true, obsOf, load, hj]
+    simp [kvsEq_refl st.values hd hw]
+  | false =>
+    have hl := hsrc.1 hsf
+    simp only [List.reverse_nil, List.nil_append] at hl
+    simp only [Bool.false_or]
+    -- the three content-driven verdicts agree with the model's tests on the merged map
+    have hschema : schemaRejects (mergeAll (okMaps inp)) = keyTrue (okMaps inp) "schemafail".toList :=
+      lemma_keyTrue _ _
+    have hval : ∀ i, validatorRejects (mergeAll (okMaps inp)) i =
+        (keyTrue (okMaps inp) ("vfail".toList ++ (Nat.repr i).toList) ||
+         keyTrue (okMaps inp) ("vpanic".toList ++ (Nat.repr i).toList)) := by
+      intro i; simp only [validatorRejects, lemma_keyTrue]
+    have hfr : (firstRejecting (mergeAll (okMaps inp)) nv).isSome =
+        (List.range nv).any (fun i =>
+          keyTrue (okMaps inp) ("vfail".toList ++ (Nat.repr i).toList) ||
+          keyTrue (okMaps inp) ("vpanic".toList ++ (Nat.repr i).toList)) := by
+      unfold firstRejecting
+      have hfun : (fun i => keyTrue (okMaps inp) ("vfail".toList ++ (Nat.repr i).toList) ||
+          keyTrue (okMaps inp) ("vpanic".toList ++ (Nat.repr i).toList)) =
+          validatorRejects (mergeAll (okMaps inp)) := by
+        funext i; exact (hval i).symm
+      rw [hfun]
+      apply Bool.eq_iff_iff.mpr
+      rw [List.find?_isSome, List.any_eq_true]
+    simp only [obsOf, load, hl]
+    rw [← hschema, ← hfr]
+    by_cases h1 : (schema && schemaRejects (mergeAll (okMaps inp))) = true
+    · simp [h1, kvsEq_refl st.values hd hw]
+    · have h1' : (schema && schemaRejects (mergeAll (okMaps inp))) = false := by simpa using h1
+      simp only [h1', Bool.false_or]
+      cases h2 : firstRejecting (mergeAll (okMaps inp)) nv with
+      | some i => simp [kvsEq_refl st.values hd hw]
+      | none =>
+        simp only [Option.isSome_none, Bool.false_or]
+        cases hb : inp.bind with
+        | none =>
+          simp only [Bool.false_eq_true, if_false]
+          simp [lemma_valuesOK, get_spec]
+        | some b =>
+          cases b with
+          | reject => simp [kvsEq_refl st.values hd hw]
+          | ok fresh =>
+            simp only [Bool.false_eq_true, if_false]
+            simp [lemma_valuesOK, get_spec]
+
+/-- the invariant `loadOK_model` asks for holds in every reachable state -/
+theorem values_wellformed (schema : Bool) (nv : Nat) (st : State) (hd : DistinctKeys st.values)
+    (hw : WFs st.values) (inp : LoadInput) :
+    DistinctKeys (load schema nv st inp).1.values ∧ WFs (load schema nv st inp).1.values := by
+  by_cases hok : (load schema nv st inp).2 = .ok
+  · obtain ⟨maps, _, hv⟩ := load_success_values schema nv st inp hok
+    rw [hv]; exact wf_mergeAll maps
+  · rw [load_failure_atomic schema nv st inp hok]; exact ⟨hd, hw⟩
+
+/-- a reader that saw the map before or after the Load passes the reader oracle -/
+theorem readerOK_model (before after seen : Kvs) (hb : DistinctKeys before ∧ WFs before)
+    (ha : DistinctKeys after ∧ WFs after) (h : seen = before ∨ seen = after) :
+    readerOK before after seen = true := by
+  unfold readerOK
+  rcases h with rfl | rfl
+  · simp [kvsEq_refl _ hb.1 hb.2]
+  · simp [kvsEq_refl _ ha.1 ha.2]
+
+end Rivaas.C14
